@@ -33,6 +33,10 @@ fn indicators(json: &str) -> serde_json::Value {
 
 fn main() {
     let nthreads: usize = std::env::args().nth(1).and_then(|s| s.parse().ok()).unwrap_or(2);
+    // which phases to run: "all" (default), "conv" (conversion only), "calc" (everything else)
+    let phases = std::env::args().nth(2).unwrap_or_else(|| "all".to_string());
+    let run_conv = phases == "all" || phases == "conv";
+    let run_calc = phases == "all" || phases == "calc";
     // a second model that differs only in climate zone and window set-back
     let model_b = MODEL_A.replace("\"D3\"", "\"A4\"").replace("\"setback\": 0.2", "\"setback\": 0.0");
     // a third model with a broken link: its indicators carry a checker warning, the others none
@@ -62,6 +66,40 @@ fn main() {
         for h in hs {
             h.join().expect("checker thread panicked");
         }
+    }
+    // phase 0a: conversion of two small self-contained projects on concurrent threads (the
+    // conversion path has no hook points at all, so only this tier interleaves inside it)
+    if run_conv {
+        use std::convert::TryFrom;
+        const BDL: &str = include_str!("small_project.bdl");
+        let bdl_b = BDL.replace("CONDUCTIVITY      =          0.667", "CONDUCTIVITY      =          0.5").replace("\"Aislante\"", "\"Aislante B\"");
+        let convert = |text: &str| -> String {
+            let data = hulc::bdl::Data::new(text).expect("small project parses");
+            let d = hulc::ctehexml::CtehexmlData { bdldata: data, ..Default::default() };
+            Model::try_from(&d).expect("small project converts").as_json().expect("json")
+        };
+        let want_a = convert(BDL);
+        let want_b = convert(&bdl_b);
+        assert_ne!(want_a, want_b);
+        let mut hs = vec![];
+        for t in 0..nthreads {
+            let (text, want) = if t % 2 == 0 { (BDL.to_string(), want_a.clone()) } else { (bdl_b.clone(), want_b.clone()) };
+            hs.push(std::thread::spawn(move || {
+                for i in 0..1 {
+                    let data = hulc::bdl::Data::new(&text).expect("small project parses");
+                    let d = hulc::ctehexml::CtehexmlData { bdldata: data, ..Default::default() };
+                    let got = Model::try_from(&d).expect("small project converts").as_json().expect("json");
+                    assert_eq!(got, want, "thread {} conversion {}: differs from the single-threaded conversion", t, i);
+                }
+            }));
+        }
+        for h in hs {
+            h.join().expect("conversion thread panicked");
+        }
+    }
+    if !run_calc {
+        println!("ctemiri ok ({} threads, {})", nthreads, phases);
+        return;
     }
     // phase 0: the cheap public table look-ups the indicators are built on, many times, from
     // threads that ask for different climate zones (a torn or stale shared result shows here
